@@ -3037,7 +3037,7 @@ func (vm *Thread) opNegateInt() {
 		result = operand.NegateVal()
 	} else {
 		operand := operand.AsReference().(*value.BigInt)
-		result = value.Ref(operand.Negate())
+		result = operand.Negate().Normalize()
 	}
 	vm.replace(result)
 }
@@ -3058,7 +3058,7 @@ func (vm *Thread) opIncrementInt() {
 		result = operand.Increment()
 	} else {
 		operand := operand.AsReference().(*value.BigInt)
-		result = value.Ref(operand.Increment())
+		result = operand.Increment().Normalize()
 	}
 	vm.replace(result)
 }
